@@ -75,6 +75,24 @@ def collect(h):
     items.append(("reg_single_changes_cleared_by_store", "bool", _cleared_by_store(h, rel, r"st \*Singletons", "st"), rel + " Prepare()/store()"))
     _loop(h, rel, r"st \*Singletons", "collectSingleton", r"for\s+id\s*:=\s*st\.lastID\s*\+\s*1\s*;\s*id\s*<\s*istructs\.MaxSingletonID\s*;\s*id\+\+")
     h.find(rel, r"lastID:\s*istructs\.FirstSingletonID\s*-\s*1\s*,", "singletons: initial lastID = FirstSingletonID - 1")
+    # store(): all rows in ONE PutBatch; renameQName(): through store() (atomic) or two direct Puts
+    for rel, recv in ((BASE + "qnames/impl.go", r"names \*QNames"), (BASE + "containers/impl.go", r"cnt \*Containers"),
+                      (BASE + "singletons/impl.go", r"st \*Singletons")):
+        body = h.func_body(rel, r"^func \(" + recv + r"\) store\(", rel + " store()")
+        if len(re.findall(r"storage\.PutBatch\(", body)) != 1 or re.search(r"storage\.(Put|InsertIfNotExists|CompareAndSwap)\(", body):
+            raise h.Missing(f"{rel}: store(): expected exactly one storage.PutBatch and no other row write")
+    rel = BASE + "qnames/rename.go"
+    body = h.func_body(rel, r"^func renameQName\(", rel + " renameQName()")
+    direct = re.findall(r"storage\.(?:Put|PutBatch|InsertIfNotExists|CompareAndSwap)\(", body)
+    if re.search(r"qnames\.store\(storage,\s*vers\)", body) and not direct:
+        atomic = "true"
+    elif (not re.search(r"\.store\(", body) and direct == ["storage.Put("]
+          and re.search(r"errors\.Join\(\s*put\(newQName,\s*id\)\s*,\s*put\(oldQName,\s*istructs\.NullQNameID\)\s*\)", body)):
+        atomic = "false"
+    else:
+        raise h.Missing(f"{rel}: cannot classify how renameQName writes its rows (store() / two Puts)")
+    items.append(("reg_rename_atomic", "bool", atomic, rel + " renameQName()"))
+
     # vers.Versions: Put caches the value before writing it; Prepare re-reads without clearing the cache
     rel = BASE + "vers/impl.go"
     body = h.func_body(rel, r"^func \(vers \*Versions\) Put\(", rel + " Put()")
